@@ -15,7 +15,8 @@ RULE = ("Cases = (row-length vector, repetition-free row selector, optional colu
         "coordinate-labelled copy, the values are written into a deep copy of the rows, and afterwards tolist/len/"
         "lengths/dtype of the array must equal the copy (addressed cells hold the values AND everything else is "
         "unchanged); value objects must be unchanged; refusals must leave the array unchanged.  Non-trivial = at least "
-        "one addressed and one unaddressed cell, or an expected refusal.")
+        "one addressed and one unaddressed cell, or an expected refusal."
+        "  A ragged mask is also changed by cell assignments and used for a second assignment.")
 ASSUMPTIONS = ["row selectors are repetition-free modulo the row count (the property's stated domain)",
                "boolean ragged masks have the array's own shape"]
 
